@@ -46,7 +46,14 @@ fn set_errno(e: c_int) {
 
 /// See the module documentation.
 pub fn futex_model(uaddr: *const AtomicU32, futex_op: c_int, val: u32) -> c_long {
-    let addr = uaddr as usize;
+    // A shared (non-PRIVATE) futex is keyed by the memory object behind the address, not by the
+    // virtual address: the writer's and a reader's mapping of the same shm object must meet in
+    // one queue. The identity of the word is the loom object it denotes; a loom atomic is one
+    // word holding the index of its state in the execution's object store, and both mappings
+    // show the same bytes.
+    const _: () = assert!(core::mem::size_of::<AtomicU32>() == core::mem::size_of::<usize>());
+    // SAFETY: `uaddr` points at a live loom atomic (see above for its layout).
+    let addr = unsafe { core::ptr::read(uaddr.cast::<usize>()) };
     stats::op();
     match futex_op {
         FUTEX_WAIT => {
